@@ -1,4 +1,5 @@
 #!/bin/bash
 . "$(dirname "$0")/../../lib.sh"
-build_e1 c20 -adddir "$VERIF_ROOT/harness/rogger=tars/util/rogger" tars/util/rogger
+# the whole tars tree (for tars.CheckPanic); tars/util/debug is replaced by a stand-in, see harness/debugstub
+build_e1 c20 -subst "tars/util/debug/debugtool.go=$VERIF_ROOT/harness/debugstub/debugtool.go" $TARS_E1_ARGS tars/util/debug
 exec "$WORK/bin/c20" "$@"
